@@ -116,3 +116,54 @@ Definition found_history : list hop :=
 
 Lemma lin_ok_examples : lin_ok lost_history = false /\ lin_ok found_history = true.
 Proof. split; vm_compute; reflexivity. Qed.
+
+(* ---- the history conditions are NECESSARY, checked exhaustively at small scope ----
+   Every history obtained from a sequential run (from the empty cache, as in the scenarios) by giving each operation
+   an interval around its place in the order — so that it overlaps one or two neighbours on either side — has a
+   sequential explanation by construction, and must be accepted. *)
+Inductive sop := SSet (k v : N) | SGet (k : N) | SGetF (k nv : N) | SClean (min : N).
+
+Fixpoint hist_of (c : cache) (i : N) (ops : list (sop * (N * N))) : list hop :=
+  match ops with
+  | [] => []
+  | (o, (a, b)) :: rest =>
+      let p := 100 * i + 1000 in
+      let inv := p - a in
+      let resp := p + b in
+      match o with
+      | SSet k v => mk_hop 0 k v None false false inv resp :: hist_of (cset k v c) (i + 1) rest
+      | SGet k =>
+          mk_hop 1 k 0 (cget k c) false (match cget k c with None => true | Some _ => false end) inv resp
+            :: hist_of c (i + 1) rest
+      | SGetF k nv =>
+          match cget k c with
+          | Some v => mk_hop 1 k nv (Some v) true false inv resp :: hist_of c (i + 1) rest
+          | None => mk_hop 1 k nv (Some nv) true true inv resp :: hist_of (cset k nv c) (i + 1) rest
+          end
+      | SClean m => mk_hop 2 0 m None false false inv resp :: hist_of (cclean m c) (i + 1) rest
+      end
+  end.
+
+Definition alphabet : list sop := [SSet 1 5; SSet 1 20; SSet 2 5; SGet 1; SGet 2; SGetF 1 20; SClean 10; SClean 30].
+Definition widths : list (N * N) := [(1, 1); (150, 150); (1, 250); (250, 1)].
+Definition letters : list (sop * (N * N)) := flat_map (fun o => map (fun w => (o, w)) widths) alphabet.
+
+Fixpoint words (n : nat) : list (list (sop * (N * N))) :=
+  match n with
+  | O => [[]]
+  | S n' => flat_map (fun w => map (fun l => l :: w) letters) (words n')
+  end.
+
+Definition alphabet4 : list sop := [SSet 1 5; SSet 1 20; SGet 1; SGetF 1 20; SClean 10; SClean 30].
+Definition widths4 : list (N * N) := [(1, 1); (150, 150); (250, 250)].
+Definition letters4 := flat_map (fun o => map (fun w => (o, w)) widths4) alphabet4.
+Fixpoint words4 (n : nat) : list (list (sop * (N * N))) :=
+  match n with
+  | O => [[]]
+  | S n' => flat_map (fun w => map (fun l => l :: w) letters4) (words4 n')
+  end.
+
+Lemma history_conditions_small_scope_lemma :
+  forallb (fun w => lin_ok (hist_of [] 0 w)) (words 3) = true /\
+  forallb (fun w => lin_ok (hist_of [] 0 w)) (words4 4) = true.
+Proof. split; vm_compute; reflexivity. Qed.
